@@ -47,7 +47,7 @@ def exec_bms(scn):
         f = dict(f, sigs=scn["sigs"])
     # ids written consistently in lower case (header keys, LNOBJ, data); measures far into the file (9xx)
     idmap = {"01": "az", "02": "b7", "ZZ": "zz"} if v % 5 == 2 else {"01": "Az", "02": "0z"} if v % 5 == 4 else None
-    moff = 897 if v % 11 == 3 and not scn.get("ext") else 0
+    moff = (899 if v % 11 == 3 else 997 if v % 11 == 7 else 0) if not scn.get("ext") else 0
     lines = concretize(f, r, merge=(v % 2 == 1), shuffle=(v % 3 != 0), lower=False, late_headers=(v % 7 == 5), idmap=idmap, moff=moff)
     ftok = lex(lines)
     rec = {"id": scn["id"] + "/read", "op": "read", "cls": f"bms.read.{scn['layout']}.{'ordered' if v % 3 == 0 else 'shuffled'}",
